@@ -152,6 +152,11 @@ def run(ctx):
         A = build(HOSTS_A, PATHS_A)
         ctx.sample("universe-A", [A[0]["url"], A[5]["url"], A[777]["url"], A[-1]["url"]])
         check_universe(ctx, "A", A, psl)
+        # hosts that merely START like a special host, and hosts under an interior (non-rule) node of a longer private rule
+        D = build(["nip.io", "10.0.0.1.nip.io", "example.com", "localhost.example.com", "amazonaws.com", "aws.amazonaws.com", "docs.aws.amazonaws.com", "os.fedoraproject.org", "x.os.fedoraproject.org"],
+                  [(), ("x",)])
+        ctx.sample("universe-D", [D[0]["url"], D[-1]["url"]])
+        check_universe(ctx, "D", D, psl)
         if ctx.tier == "thorough":
             B = build(HOSTS_B, PATHS_B, schemes=("http", "ftp"), ports=(None, "81"), queries=(None, "a=b&c"), frags=(None, "/r"))
             ctx.sample("universe-B", [B[0]["url"], B[9]["url"], B[-1]["url"]])
